@@ -25,13 +25,13 @@ def run(run, replay_path=None, replay=None):
         fns.append(t.fn(f).describe())
     run.functions.extend(fns)
     binary = rp.build(run, 'c21')
-    configs = [(3, 4)] if run.tier != 'thorough' else [(3, 5), (4, 4)]
+    configs = [(3, 4, ''), (3, 3, 'raw')] if run.tier != 'thorough' else [(3, 5, ''), (4, 4, ''), (3, 4, 'raw')]
     run.level = 'exploration'
     total_seq = total_checks = distinct = 0
     samples = []
     t0 = time.time()
-    for (n, ln) in configs:
-        p = subprocess.run([binary, str(n), str(ln)], capture_output=True, text=True, timeout=7200)
+    for (n, ln, raw) in configs:
+        p = subprocess.run([binary, str(n), str(ln)] + ([raw] if raw else []), capture_output=True, text=True, timeout=7200)
         try:
             js = json.loads(p.stdout.strip().split('\n')[-1])
         except Exception:
@@ -48,9 +48,9 @@ def run(run, replay_path=None, replay=None):
                                cex={"found": True, "how": "exhaustive enumeration of operation sequences on the real ModuleGraph against a reference graph",
                                     "input": {"operation_sequence": trace, "paths": n}, "real_result": what, "oracle": "plain reference graph (vertex set, edge set)",
                                     "verdict": "a query or postcondition disagrees with the reference graph",
-                                    "replay_cmd": "%s %d %d   # enumerates; the failing history is: %s" % (binary, n, ln, trace)})
+                                    "replay_cmd": "%s %d %d %s  # enumerates; the failing history is: %s" % (binary, n, ln, raw, trace)})
         if not js["violations"]:
-            run.add_obligation("all sequences up to length %d over %d paths" % (ln, n), 'runtime-contract', True, cmd="%s %d %d" % (binary, n, ln))
+            run.add_obligation("all sequences up to length %d over %d paths%s" % (ln, n, " incl. inc_ref to unregistered targets" if raw else ""), 'runtime-contract', True, cmd="%s %d %d %s" % (binary, n, ln, raw))
     run.solver_time_s = time.time() - t0
     run.bounded_note = "all operation sequences up to the stated length over the stated number of module paths; nothing beyond that bound is covered"
     run.extra.update({
@@ -62,4 +62,4 @@ def run(run, replay_path=None, replay=None):
         "postcondition_checks": total_checks,
     })
     run.samples = samples[:6]
-    run.assumptions.append("BOUNDED: exhaustive only up to the stated sequence length and number of paths; run-time-checked contracts, not a deductive proof. Import edges are only added between registered modules (the harness registers the target first), rename targets are fresh paths.")
+    run.assumptions.append("BOUNDED: exhaustive only up to the stated sequence length and number of paths; run-time-checked contracts, not a deductive proof. Two op sets: the usual one registers an import target before inc_ref; the 'raw' one also calls inc_ref with an unregistered target (sort may then answer KeyNotFound, which is accepted). Rename targets are fresh paths.")
